@@ -138,6 +138,12 @@ pub fn token_body(n: usize, l: usize, align: usize, last: bool, sign: bool, low:
 
 /// unary run lengths: every length up to 130 (the cap is 95; window-at-a-time scanners have their seams at
 /// multiples of 8, 16, 32, 64 minus the cursor alignment) and the values around 256 and 512
+/// run lengths at the widths of machine counters (an 8-bit counter is covered by `runs`): only reachable in
+/// buffers far longer than a signature, which `decompress` accepts like any other length
+pub fn wide_runs() -> Vec<usize> {
+    vec![1023, 1024, 1025, 4095, 4096, 4097, 32766, 32767, 32768, 32769, 40000, 65534, 65535, 65536, 65537]
+}
+
 pub fn runs() -> Vec<usize> {
     (0..=130).chain([255, 256, 257, 511, 512, 513]).collect()
 }
